@@ -1,3 +1,97 @@
-(* C13 — statements are added when the corresponding facts file lands *)
-From SV Require Import Bytes Lexer Tables ArgCheck Machine Printer GenTables.
-Theorem C13_placeholder : True. Proof. exact I. Qed.
+(* C13 — parsing and filter building are independent of what happened before.
+
+   Model: sieve/Machine.v.  [parse T text] is a Gallina function of the tables and the text: the model
+   has no place where history could be kept, which is exactly what C13 asks of the implementation.
+   What ties that to the code is (a) the state inventory gen/StateInv.v, regenerated from the AST of
+   /repo/sievelib/{parser,commands,factory,tools}.py on every run by tools/gen_state.py, with the
+   obligations below re-checked by vm_compute: every attribute the parser mutates while parsing is
+   re-initialised by __reset_parser, which parse() calls first; the lexer's mutable attributes are
+   assigned at the start of scan(); the only class-level state written anywhere is
+   RequireCommand.loaded_extensions, rebound by the reset; nothing outside commands.py/parser.py refers
+   to it (in particular the filter factory does not); no global statements, no mutated module-level
+   containers, no mutable default arguments; (b) the correspondence of the stateless model with a
+   reused Parser inside generated histories, and the comparison of every outcome with a pristine
+   interpreter (the check). *)
+From Coq Require Import String List Bool.
+From SV Require Import Bytes Lexer Tables ArgCheck Machine StateInv.
+Import ListNotations.
+Local Open Scope string_scope.
+
+(* a Parser object between two calls: whatever the previous parse left behind *)
+Record parser_object := mkPO { po_leftover : pstate; po_last : option outcome }.
+
+(* Parser.parse: __reset_parser first, then the token loop from the initial state *)
+Definition reset_parser (o : parser_object) : pstate := p_init.
+Definition parse_with (T : tables) (o : parser_object) (text : bytes) : outcome * parser_object :=
+  let out := run_loop (2 * length text + 2) T 0 text 0 None (reset_parser o) in
+  (out, mkPO (reset_parser o) (Some out)).
+
+(* full statement: for every history of earlier parses on the same object (any texts, accepted or not),
+   the outcome of the next parse is the outcome a fresh parser gives *)
+Fixpoint after_history (T : tables) (o : parser_object) (hist : list bytes) : parser_object :=
+  match hist with
+  | [] => o
+  | t :: r => after_history T (snd (parse_with T o t)) r
+  end.
+
+Theorem C13_parse_independent_of_history :
+  forall T hist o text, fst (parse_with T (after_history T o hist) text) = parse T text.
+Proof. intros. reflexivity. Qed.
+Print Assumptions C13_parse_independent_of_history.
+
+(* ---- obligations over the inventory regenerated from the working tree ---- *)
+Definition smem (s : string) (l : list string) : bool := existsb (String.eqb s) l.
+
+(* outputs of parse(): written on failure, read only by the caller *)
+Definition parser_outputs : list string := ["error"; "error_pos"].
+
+Theorem C13_reset_runs_first : parse_resets_first = true.
+Proof. vm_compute. reflexivity. Qed.
+
+(* every Parser attribute mutated while parsing is re-initialised by __reset_parser (the lexer object is
+   covered by its own obligation below) *)
+Theorem C13_reset_covers_mutations :
+  forallb (fun mf => smem (snd mf) (parser_reset_fields ++ parser_outputs ++ ["lexer"])) parser_mutations = true.
+Proof. vm_compute. reflexivity. Qed.
+
+(* every attribute read is configuration set by __init__, or re-initialised by the reset, or an output *)
+Theorem C13_reset_covers_reads :
+  forallb (fun f => smem f (parser_init_fields ++ parser_reset_fields ++ parser_outputs)) parser_reads = true.
+Proof. vm_compute. reflexivity. Qed.
+
+(* configuration set by __init__ is never mutated afterwards, except the lexer's own position *)
+Theorem C13_init_fields_constant :
+  forallb (fun f => negb (smem f (map snd parser_mutations)) || String.eqb f "lexer") parser_init_fields = true.
+Proof. vm_compute. reflexivity. Qed.
+
+(* the lexer: everything scan() mutates is assigned at its start; everything it reads is configuration or that *)
+Theorem C13_lexer_state :
+  forallb (fun mf => String.eqb (fst mf) "scan" && smem (snd mf) lexer_scan_prologue) lexer_mutations = true
+  /\ forallb (fun f => smem f (lexer_init_fields ++ lexer_scan_prologue)) lexer_reads = true.
+Proof. vm_compute. split; reflexivity. Qed.
+
+(* class-level state: only RequireCommand.loaded_extensions is ever written, by the reset (rebinding) and by
+   complete_cb; nothing else in the four modules writes to a class object *)
+Definition write_ok (w : string * string * string * string) : bool :=
+  let '(file, fn, target, kind) := w in
+  (String.eqb file "parser.py" && String.eqb fn "__reset_parser" && String.eqb target "RequireCommand.loaded_extensions" && String.eqb kind "assign")
+  || (String.eqb file "commands.py" && String.eqb fn "complete_cb" && String.eqb target "RequireCommand.loaded_extensions").
+Theorem C13_class_state_writes :
+  forallb write_ok class_state_writes = true
+  /\ existsb (fun w => let '(file, fn, _, kind) := w in String.eqb fn "__reset_parser" && String.eqb kind "assign") class_state_writes = true.
+Proof. vm_compute. split; reflexivity. Qed.
+
+(* ... and it is consulted only inside commands.py (the parser's gates); the filter factory never reads it *)
+Definition ref_ok (r : string * string * string) : bool :=
+  let '(file, fn, target) := r in
+  String.eqb file "commands.py" || String.eqb target "Parser.lrules".
+Theorem C13_class_state_refs : forallb ref_ok class_state_refs = true.
+Proof. vm_compute. reflexivity. Qed.
+
+(* no other channel: global statements, mutated module-level containers, mutable defaults, class-level
+   containers mutated through self; globals() is written by add_commands only *)
+Theorem C13_no_other_channel :
+  global_statements = [] /\ module_mutables_mutated = [] /\ mutable_defaults = [] /\
+  class_attrs_mutated_via_self = [] /\
+  forallb (fun g => String.eqb (fst g) "commands.py" && String.eqb (snd g) "add_commands") globals_writes = true.
+Proof. vm_compute. repeat split. Qed.
